@@ -15,6 +15,38 @@ HEADER = """#![allow(dead_code)]
 """
 
 
+def decorate_all(it):
+    """#[deprecated] on each single field / variant position in turn (not only the first)."""
+    out = []
+    src = it.src
+    m = re.search(r"pub (struct|enum) @N@[^({;]*([({])", src)
+    if not m or ("struct" in m.group(0) and src.rstrip().endswith("@N@;")):
+        return out
+    start = m.end()
+    # split the body at top-level commas
+    depth, pos, cuts = 0, start, [start]
+    while pos < len(src):
+        ch = src[pos]
+        if ch in "([{<":
+            depth += 1
+        elif ch in ")]}>":
+            if ch == ">" and src[pos - 1] == "-":
+                pass
+            else:
+                depth -= 1
+                if depth < 0:
+                    break
+        elif ch == "," and depth == 0:
+            cuts.append(pos + 1)
+        pos += 1
+    for k, c in enumerate(cuts[1:], 1):
+        rest = src[c:].lstrip()
+        if not rest or rest[0] in ")}":
+            continue
+        out.append(("deprecated-pos%d" % k, src[:c] + " #[deprecated]" + src[c:]))
+    return out
+
+
 def decorate(it, kind, rng):
     """Hostile decorations that must not make the expansion warn: #[deprecated] fields/variants."""
     src = it.src
@@ -67,6 +99,14 @@ def run(ctx):
                 continue
             src = decorate(it, kind, ctx.rng)
             if src is None:
+                continue
+            it2 = items.Item(it.derives, src, it.dims[:4] + (it.dims[4] + "+" + kind,), it.std_derives)
+            cases.append((Case("i%d" % k, it2.dims, "    #[allow(deprecated, non_camel_case_types, non_snake_case)]\n    " + it2.text("T%d" % k).replace("\n", "\n    "), "", expect=0,
+                               meta={"what": "derive(%s) on %s" % (",".join(it2.derives), it2.dims), "derives": it2.derives, "dims": it2.dims}), it2))
+            k += 1
+    for it in chosen:
+        for kind, src in decorate_all(it):
+            if ctx.quick() and ctx.rng.random() < 0.8:
                 continue
             it2 = items.Item(it.derives, src, it.dims[:4] + (it.dims[4] + "+" + kind,), it.std_derives)
             cases.append((Case("i%d" % k, it2.dims, "    #[allow(deprecated, non_camel_case_types, non_snake_case)]\n    " + it2.text("T%d" % k).replace("\n", "\n    "), "", expect=0,
